@@ -20,10 +20,18 @@ def check(recipe, src_root):
         pos = {v: i for i, v in enumerate(perm)}
         if all(pos[verts[a]] < pos[verts[b]] for a, b in edges):
             want.append(list(perm))
-    got = mod.toposort_all({k: set(v) for k, v in graph.items()})
+    shared = {k: set(v) for k, v in graph.items()}  # one graph object passed to several calls: none of them may change it
+    first = mod.toposort(shared)
+    if shared != graph:
+        return "toposort modified the graph it was given"
+    got = mod.toposort_all(shared)
+    if shared != graph:
+        return "toposort_all modified the graph it was given"
     if sorted(got) != sorted(want):
         return f"toposort_all returned {len(got)} orderings ({len(set(map(tuple, got)))} distinct), permutation filtering gives {len(want)}"
-    one = mod.toposort({k: set(v) for k, v in graph.items()})
+    one = mod.toposort(shared)
+    if one != first:
+        return f"two calls of toposort on the same graph returned {first!r} and {one!r}"
     if (one is None) != (len(want) == 0):
         return f"toposort returned {one!r} but {len(want)} orderings exist"
     if one is not None and list(one) not in want:
